@@ -63,7 +63,7 @@ def gen_param_value(r, family, depth=0):
         if t < 0.5:
             kw = {'a': gen_param_value(r, r.choice(['int', 'str', 'list']))}
             if r.random() < 0.5:
-                kw['b'] = r.choice(['x', 'y', 'zz'])
+                kw['b'] = r.choice(['x', 'y', 'zz', 'pre_{VB}', '{VA}/w'])     # (placeholders inside arguments of object definitions)
             if r.random() < 0.4:
                 kw['verbose'] = r.random() < 0.5
             return {'class': 'tcw.objs.PObj' if r.random() < 0.7 else 'tcw.objs.PSub', 'kwargs': kw}
